@@ -57,6 +57,15 @@ pub enum SizeError {
         actual: u64,
     },
 
+    /// A size does not fit the on-disk field it is written to
+    #[error("Value {value} does not fit in {bytes} bytes")]
+    ValueTooLarge {
+        /// The value that was to be written
+        value: u64,
+        /// Width of the on-disk field in bytes
+        bytes: u8,
+    },
+
     /// Binary read/write error
     #[error("Binary parsing error: {0}")]
     BinRead(String),
